@@ -29,6 +29,7 @@ Inductive eff :=
 | AcqScope | RelScope      (* connection management scope opened / Done *)
 | AcqStrm | RelStrm        (* muxed or swarm stream opened / reset *)
 | AcqSScope | RelSScope    (* stream management scope opened / Done *)
+| NoScope                  (* the accepted connection came without a scope (connScope == nil) *)
 | AcqConn                  (* an upgraded connection is received from the accept queue: its raw
                               conn and its scope are now this code's to release or hand on *)
 | RelConn                  (* transportConn.Close/CloseWithError: closes the muxed conn
@@ -125,6 +126,27 @@ Definition fn_listener_go := mkFn "listener_go"
   [("l.incoming <- conn", HandOver)] [] Nop
   ["cancel"; "conn.RemotePeer"; "l.ctx.Err"; "l.threshold.Acquire"; "l.threshold.Release";
    "maconn.LocalMultiaddr"; "maconn.RemoteMultiaddr"; "wg.Done"].
+
+(* listener.handleIncoming: one iteration of the accept loop; the goroutine it
+   starts (listener_go) takes the connection and its scope over *)
+Definition fn_listener_loop := mkFn "listener_loop"
+  [("l.GatedMaListener.Accept", (AcqConn, Nop, Impossible));
+   ("maconn.Close", (RelRaw, RelRaw, RelRaw))]
+  [] []
+  [("connScope == nil", CEffect NoScope Nop)]
+  HandOver
+  ["catcher.IsTemporary"; "catcher.Reset"; "close"; "l.GatedMaListener.Close"; "l.ctx.Err";
+   "l.threshold.Wait"; "maconn.LocalMultiaddr"; "maconn.RemoteMultiaddr"; "wg.Add"; "wg.Wait"].
+
+(* BasicHost.newStreamHandler: owns the inbound swarm stream (resetting it
+   releases its scope) until it hands it to the protocol handler *)
+Definition fn_host_streamhandler := mkFn "host_streamhandler"
+  [("s.Reset", (RelStrm, RelStrm, RelStrm));
+   ("s.ResetWithError", (RelStrm, RelStrm, RelStrm));
+   ("handle", (HandOver, HandOver, HandOver))]
+  [] [] [] Nop
+  ["h.Mux"; "h.Mux().Negotiate"; "s.Conn"; "s.Conn().RemoteMultiaddr"; "s.Conn().RemotePeer"; "s.ID";
+   "s.SetDeadline"; "s.SetProtocol"].
 
 (* listener.Accept: one iteration of `for c := range l.incoming` *)
 Definition fn_listener_accept := mkFn "listener_accept"
@@ -227,6 +249,7 @@ Definition apply_eff (s : st) (e : eff) : st :=
   | RelStrm => set_strm s Released
   | AcqSScope => set_sscope s Held
   | RelSScope => set_sscope s Released
+  | NoScope => set_cscope s Absent
   | AcqConn => set_cscope (set_raw s Held) Held
   | RelConn => set_cscope (set_raw s Released) Released
   | HandOver => set_handed s
